@@ -6,7 +6,7 @@
 # <dir>/stage1.<k>.tsv (id, verdict) and <dir>/stage2.<k>.tsv (id, first catching check or SURVIVED, log).
 set -u
 MODE=$1; DIR=$2; K=$3; N=$4
-W=$DIR/w$K
+if [ "$MODE" = checks ]; then W=$DIR/c$K; else W=$DIR/w$K; fi
 export CARGO_NET_OFFLINE=true
 mkdir -p $W
 if [ ! -d $W/repo ]; then git -C /repo worktree add -q --detach $W/repo HEAD; fi
